@@ -13,12 +13,23 @@ ALL_CFGS = ["tc", "tc_safe", "sm", "sm_safe"]
 def base_corpus(tier, seed):
     defs = corpus.shape_corpus()
     defs += corpus.random_corpus(seed, 40 if tier == "quick" else 800)
-    try:
-        import extract
-        defs += extract.repo_defs()
-    except ImportError:
-        pass
     return defs
+
+
+def engine_a_all(tier, seed):
+    """base corpus + the definitions found in the repository's own tests/examples, merged"""
+    import extract
+    a = engine_a(tier, seed)
+    b = engine_a(tier, seed, "repo", extract.repo_defs())
+    m = dict(a)
+    for k in ("defs", "accepted", "explored", "n_viol", "n_findings", "requests", "runs"):
+        m[k] = a[k] + b[k]
+    m["tlc"] = {k: a["tlc"][k] + b["tlc"][k] for k in ("states", "distinct", "wall")}
+    m["tlc"]["depth"] = max(a["tlc"]["depth"], b["tlc"]["depth"])
+    m["findings"] = a["findings"] + b["findings"]
+    m["viol"] = a["viol"] + b["viol"]
+    m["samples"] = a["samples"][:4] + b["samples"][:2]
+    return m
 
 
 def engine_a(tier, seed, name="base", defs=None):
@@ -86,21 +97,21 @@ ASSUME_A = [
 
 def check_C01(tier, seed, rest):
     t0 = time.time()
-    r = engine_a(tier, seed)
+    r = engine_a_all(tier, seed)
     v = [as_violation(f) for f in r["findings"] if is_munch(f)]
     finish("C01", tier, seed, "model_checking", a_coverage(r), v, t0, ASSUME_A)
 
 
 def check_C02(tier, seed, rest):
     t0 = time.time()
-    r = engine_a(tier, seed)
+    r = engine_a_all(tier, seed)
     v = [as_violation(f) for f in r["findings"] if is_errspan(f)]
     finish("C02", tier, seed, "model_checking", a_coverage(r), v, t0, ASSUME_A)
 
 
 def check_C07(tier, seed, rest):
     t0 = time.time()
-    r = engine_a(tier, seed)
+    r = engine_a_all(tier, seed)
     v = [as_violation(f) for f in r["findings"] if f["kind"].startswith("partial")]
     finish("C07", tier, seed, "model_checking", a_coverage(r), v, t0, ASSUME_A)
 
